@@ -27,7 +27,8 @@ ASSUMPTIONS = [
     "PDU iff the Metadata-Recv indication was delivered (DESIGN 5, C05)",
     "a File Data PDU whose write_data call was made to fail leaves the file unchanged (fault population only)",
     "the destination file may disappear only in a call that delivers a Transaction-Finished indication with a condition "
-    "code other than No Error while disposition-on-cancellation is configured",
+    "code other than No Error while disposition-on-cancellation is configured, and not after the same transaction was reported as "
+    "delivered completely while the file holds every byte of the source file",
 ]
 BUDGET = {"quick": 30, "thorough": 900}
 
@@ -43,6 +44,7 @@ class TreeOracle(Monitor):
         self.tree = dict(w.vfs_a.h_tree())
         self.cur = {}  # (entity, handler) -> resolved destination path of the current transaction
         self.rej_seen = 0
+        self.success = {}
         self.applied = 0
         self.md_applied = 0
 
@@ -60,6 +62,8 @@ class TreeOracle(Monitor):
         lenient = False
         if rec.hk == "dst" and rec.op == "sm":
             key = (rec.ent, rec.hk)
+            if rec.pre.state == "IDLE":
+                self.success.pop(key, None)  # whatever starts now is a new transaction (a synthetic peer may re-use an id)
             for ind in rec.inds:
                 nm = ind[0]
                 if nm == "metadata_recv":
@@ -110,6 +114,13 @@ class TreeOracle(Monitor):
                     cond = ind[2][0]
                     if cond != 0 and c.dispo:
                         may_delete = self.cur.get(key)
+                        # ... of an INCOMPLETE file: the run's own destination file holding every byte of the source file
+                        # is complete, whatever the indication says
+                        if may_delete == _norm(w.dst_path) and self.tree.get(("f", may_delete)) == w.src_bytes and len(w.src_bytes) > 0 \
+                                and self.success.get(key) == ind[1]:
+                            may_delete = None
+                    elif cond == 0 and ind[2][1] == 0:
+                        self.success[key] = ind[1]  # this transaction was reported as delivered completely
         # a File Data PDU handed to a handler that is, by its public step, still receiving file data is accepted (and,
         # by the clauses above, written): silently dropping it is not an option the write model has
         if rec.hk == "dst" and rec.op == "sm" and rec.inb_kind == "FD" and rec.exc is None and rec.pre.step in (
